@@ -57,6 +57,7 @@ func loadFindings(root string) ([]Finding, error) {
 type chunk struct {
 	idx      int
 	from, to int
+	label    string // non-empty: an isolated single case (Monitor.Isolate)
 }
 
 type chunkOutcome struct {
@@ -120,11 +121,23 @@ func Drive(cfg Config) int {
 			chunks = append(chunks, chunk{idx: c, from: from, to: to})
 		}
 	}
+	if m.Isolate != nil {
+		for i := 0; i < n; i++ {
+			if l := m.Isolate(cfg.Tier, i); l != "" {
+				chunks = append(chunks, chunk{idx: isoBase + i, from: i, to: i + 1, label: l})
+			}
+		}
+	}
 	bin := cfg.SelfBin
 	if m.Race {
 		bin = cfg.RaceBin
 	}
-	d := &driver{cfg: cfg, m: m, bin: bin, scratch: scratch}
+	d := &driver{cfg: cfg, m: m, bin: bin, scratch: scratch, isoLabels: map[int]string{}}
+	for _, c := range chunks {
+		if c.label != "" {
+			d.isoLabels[c.idx] = c.label
+		}
+	}
 	total := newResult()
 	var mu sync.Mutex
 	var wg sync.WaitGroup
@@ -156,11 +169,14 @@ func Drive(cfg Config) int {
 	return d.report(total, n, time.Since(start))
 }
 
+const isoBase = 1 << 24
+
 type driver struct {
-	cfg     Config
-	m       *Monitor
-	bin     string
-	scratch string
+	cfg       Config
+	m         *Monitor
+	bin       string
+	scratch   string
+	isoLabels map[int]string // chunk idx -> label
 }
 
 func (d *driver) workerCmd(c chunk, tag string, replay bool) (*exec.Cmd, string, string, string) {
@@ -169,7 +185,7 @@ func (d *driver) workerCmd(c chunk, tag string, replay bool) (*exec.Cmd, string,
 	errf := filepath.Join(d.scratch, fmt.Sprintf("stderr-%d%s.txt", c.idx, tag))
 	argv := []string{d.bin, "-worker", "-prop", d.cfg.Prop, "-tier", d.cfg.Tier, "-seed", fmt.Sprint(d.cfg.Seed),
 		"-from", fmt.Sprint(c.from), "-to", fmt.Sprint(c.to), "-out", out, "-journal", journal, "-scratch", d.scratch}
-	if replay {
+	if replay || c.label != "" {
 		argv = append(argv, "-isolated")
 	}
 	if d.m.Wrapper != nil {
@@ -178,9 +194,16 @@ func (d *driver) workerCmd(c chunk, tag string, replay bool) (*exec.Cmd, string,
 	cmd := exec.Command(argv[0], argv[1:]...)
 	cmd.Env = append(os.Environ(), "GOTRACEBACK=all")
 	if d.m.Race {
-		cmd.Env = append(cmd.Env, "GORACE=halt_on_error=0 exitcode=0 history_size=4 log_path="+filepath.Join(d.scratch, "race"))
+		cmd.Env = append(cmd.Env, "GORACE=halt_on_error=0 exitcode=0 history_size=4 log_path="+filepath.Join(d.scratch, raceLogName(c)))
 	}
 	return cmd, out, journal, errf
+}
+
+func raceLogName(c chunk) string {
+	if c.label != "" {
+		return fmt.Sprintf("race-iso%d", c.idx)
+	}
+	return "race"
 }
 
 // runProc runs one worker process; returns result (nil if it died), exit code, last journaled case, stderr tail.
@@ -281,7 +304,7 @@ func (d *driver) runChunk(c chunk) *Result {
 	attempt := 0
 	for from < c.to {
 		attempt++
-		sub := chunk{idx: c.idx, from: from, to: c.to}
+		sub := chunk{idx: c.idx, from: from, to: c.to, label: c.label}
 		res, code, last, tail := d.runProc(sub, fmt.Sprintf("-a%d", attempt), false)
 		if res != nil {
 			acc.merge(res, 8)
@@ -317,7 +340,7 @@ func (d *driver) runChunk(c chunk) *Result {
 
 // triage re-runs the culprit case alone (up to 3 times) and classifies the death.
 func (d *driver) triage(c chunk, cs int, code int, tail string, acc *Result) {
-	one := chunk{idx: c.idx, from: cs, to: cs + 1}
+	one := chunk{idx: c.idx, from: cs, to: cs + 1, label: c.label}
 	deaths := 0
 	var lastTail string
 	var lastCode int
@@ -353,21 +376,33 @@ func (d *driver) triage(c chunk, cs int, code int, tail string, acc *Result) {
 		kind = "hang"
 	}
 	key := kind + "/" + fatalKey(lastTail)
+	if c.label != "" {
+		key = c.label + "/" + key
+	}
 	acc.ViolCount[key]++
 	acc.Violations = append(acc.Violations, Violation{Key: key, Case: cs,
 		Detail: fmt.Sprintf("worker process died 3/3 times on this case in isolation (exit code %d)\n%s", lastCode, lastTail)})
 }
 
-var raceFrameRe = regexp.MustCompile(`(?m)^  ([^\s(]+)\(`)
+var raceFrameRe = regexp.MustCompile(`(?m)^  (\S+?)\([^()]*\)$`)
+var isoLogRe = regexp.MustCompile(`^race-iso(\d+)\.`)
 
 // collectRaces parses race-detector logs written by the workers.
 func (d *driver) collectRaces(total *Result) {
-	files, _ := filepath.Glob(filepath.Join(d.scratch, "race.*"))
+	files, _ := filepath.Glob(filepath.Join(d.scratch, "race*.*"))
 	seen := map[string]bool{}
 	for _, f := range files {
 		b, err := os.ReadFile(f)
 		if err != nil {
 			continue
+		}
+		prefix := ""
+		if m := isoLogRe.FindStringSubmatch(filepath.Base(f)); m != nil {
+			var idx int
+			fmt.Sscan(m[1], &idx)
+			if l := d.isoLabels[idx]; l != "" {
+				prefix = l + "/"
+			}
 		}
 		for _, blk := range bytes.Split(b, []byte("==================")) {
 			if !bytes.Contains(blk, []byte("WARNING: DATA RACE")) {
@@ -398,7 +433,7 @@ func (d *driver) collectRaces(total *Result) {
 				tops = append(tops, top)
 			}
 			sort.Strings(tops)
-			key := "race/" + strings.Join(tops, "|")
+			key := prefix + "race/" + strings.Join(tops, "|")
 			if !lib {
 				total.Inconclusive["harness-only-race:"+key]++
 				if !seen[key] {
@@ -562,7 +597,14 @@ func ReplayFile(cfg Config, path string) int {
 		bin = cfg.RaceBin
 	}
 	d := &driver{cfg: cfg, m: m, bin: bin, scratch: scratch}
-	res, code, _, tail := d.runProc(chunk{idx: 0, from: rf.Case, to: rf.Case + 1}, "-replay", true)
+	rc := chunk{idx: 0, from: rf.Case, to: rf.Case + 1}
+	if m.Isolate != nil {
+		if l := m.Isolate(cfg.Tier, rf.Case); l != "" {
+			rc.idx, rc.label = isoBase+rf.Case, l
+			d.isoLabels = map[int]string{rc.idx: l}
+		}
+	}
+	res, code, _, tail := d.runProc(rc, "-replay", true)
 	if res == nil {
 		fmt.Printf("replay: worker died (code %d)\n%s\nVIOLATION property=%s replay=%s\n", code, tail, cfg.Prop, path)
 		return 1
